@@ -893,6 +893,32 @@ def tune_t(drv, base, m: int, target: float, t_guess=None):
     return (t, cur) if cur is not None and abs(cur - target) < 6.0 else (None, cur)
 
 
+def tune_t_bracket(drv, base, target: float, lo: float, hi: float, tol: float = 4.0, iters: int = 9):
+    """branch length in [lo, hi] at which the smallest site log-likelihood is ~ target, by bracketing (Illinois variant of
+    regula falsi on log t): robust where the likelihood saturates and a secant step would run away"""
+    def f(t):
+        logs = site_logs_at(drv, dict(base, t=t))
+        return None if logs is None else min(logs) - target
+
+    a, b = math.log(lo), math.log(hi)
+    fa, fb = f(lo), f(hi)
+    if fa is None or fb is None or fa * fb > 0:
+        return None, None
+    for _ in range(iters):
+        c = (a * fb - b * fa) / (fb - fa)
+        fc = f(math.exp(c))
+        if fc is None:
+            return None, None
+        if abs(fc) < tol:
+            return math.exp(c), fc + target
+        if fc * fb < 0:
+            a, fa = b, fb
+        else:
+            fa *= 0.5
+        b, fb = c, fc
+    return None, fb + target
+
+
 def mixed_sweep(ck: Check, drv, budget_s: float):
     """alignments that are heterogeneous ACROSS SITE PATTERNS: conserved patterns (site likelihood ~ pi, non-uniform
     weights, one of them heavy) plus 1-3 patterns placed deliberately in each critical band of the smallest site
@@ -1552,6 +1578,100 @@ def invariants_check(ck: Check, drv, budget_s: float):
 
 
 # ----------------------------------------------------------------------------------------------
+# part 6: columns heterogeneous ALONG THE TREE, and batches whose rows sit in different regimes
+# ----------------------------------------------------------------------------------------------
+
+
+def clade_sites(n: int, n1: int, h0: int, h1: int, extra_const: int = 1):
+    """taxa 0..n1-1 form the first clade (caterpillar: the taxa joined first; balanced: the left part of the tree).
+    column 0: constant 'A' on the first clade, then hypervariable (ACGT cycling) on h0 taxa of the second clade;
+    column 1: hypervariable on the first h1 taxa of the first clade, constant elsewhere; then constant columns.
+    Different sites therefore underflow at different DEPTHS of the tree."""
+    rows = []
+    for i in range(n):
+        c0 = "A" if i < n1 or i >= n1 + h0 else "ACGT"[i % 4]
+        c1 = "ACGT"[i % 4] if i < h1 else "A"
+        rows.append(c0 + c1 + "G" * extra_const)
+    return rows
+
+
+def clade_sweep(ck: Check, drv, budget_s: float):
+    """the evaluation on which rescaling is switched on (plain pass -inf at >= 2 sites, then the safe pass) on alignments
+    whose columns differ strongly BETWEEN CLADES: one column falls below the smallest double inside the first clade while
+    the other is still ~0.25 there and collapses only in the second clade (and the reverse); plus variants where a column
+    ends in the denormal band or above it. Short branches so that a hypervariable taxon costs ~log(t/3)."""
+    rng = ck.rng
+    fails, refs = [], {}
+    t_start = time.time()
+    # (shape, model, K, tip_states, n, n1, t, list of (h0, h1))
+    configs = [("caterpillar", "JC69", 1, False, 240, 120, 1.0e-4, [(120, 120)]),
+               ("balanced", "HKY", 1, True, 256, 128, 1.0e-4, [(128, 128)])]
+    if ck.thorough():
+        configs = [("caterpillar", "JC69", 1, False, 240, 120, 1.0e-4, [(120, 120), (120, 92), (60, 120), (92, 92)]),
+                   ("balanced", "HKY", 1, True, 256, 128, 1.0e-4, [(128, 128), (128, 90), (70, 128)]),
+                   ("caterpillar", "HKY", 4, False, 300, 100, 2.0e-4, [(200, 100), (100, 100)]),
+                   ("random", "JC69", 1, False, 256, 128, 1.0e-4, [(128, 128)]),
+                   ("caterpillar", "JC69", 1, True, 900, 400, 0.02, [(500, 400)])]
+    for ci, (shape, model, K, tipst, n, n1, t, hs) in enumerate(configs):
+        for (h0, h1) in hs:
+            if time.time() - t_start > budget_s:
+                ck.notes.append(f"clade sweep: budget reached in configuration {ci}")
+                return fails
+            cfg = {"shape": shape, "model": model, "K": K, "tip_states": tipst, "n": n, "t": t,
+                   "seed_shape": rng.randrange(10 ** 6), "sites": clade_sites(n, n1, h0, h1), "clade": [n1, h0, h1]}
+            h = Hist(cfg)
+            eval_and_check(ck, drv, h, "clade-fresh", refs, fails, group="clade")
+            eval_and_check(ck, drv, h, "clade-repeat", refs, fails, group="clade")
+            h2 = Hist(cfg)
+            h2.preset()
+            eval_and_check(ck, drv, h2, "clade-preset", refs, fails, group="clade")
+            h3 = Hist(dict(cfg, tip_states=not tipst))
+            eval_and_check(ck, drv, h3, "clade-fresh-other-tip-path", refs, fails, group="clade")
+    return fails
+
+
+def regime_batches(ck: Check, drv, budget_s: float):
+    """batches whose rows sit in DIFFERENT regimes: an EASY row (branch lengths ~1e-4 on constant columns: the
+    whole-alignment log-likelihood is above log(threshold)), a BAND row (branch length tuned so that every site likelihood
+    is in the denormal band, none exactly 0) and a ZERO row (long branches: every site flushed to 0) — subsets and orders
+    of them, each row against its own exact reference. Whatever a switch test does with the batch dimension (any / all /
+    first row), some order here makes the easy row and the band row disagree."""
+    rng = ck.rng
+    fails, refs = [], {}
+    t_start = time.time()
+    configs = [("balanced", "HKY", 1, False, 420)]
+    if ck.thorough():
+        configs += [("caterpillar", "JC69", 1, False, 590), ("random", "HKY", 1, True, 460), ("balanced", "JC69", 4, False, 600),
+                    ("balanced", "JC69", 1, False, 600)]
+    for ci, (shape, model, K, tipst, n) in enumerate(configs):
+        if time.time() - t_start > budget_s:
+            ck.notes.append(f"regime batches: budget reached before configuration {ci}")
+            break
+        cols = ["A" * n, "C" * n, "G" * n] if K == 1 else ["A" * n, "G" * n]
+        sites = ["".join(c[i] for c in cols) for i in range(n)]
+        base = {"shape": shape, "model": model, "K": K, "tip_states": tipst, "n": n, "sites": sites,
+                "seed_shape": rng.randrange(10 ** 6), "regime_batch": True, "t": 0.0}
+        t_band, got = tune_t_bracket(drv, base, -741.0, 0.02, 40.0, tol=1.5, iters=12)
+        if t_band is None or not (-744.0 < got < -730.0):
+            ck.notes.append(f"regime batches: could not tune {shape}/{model} into the band (got {got})")
+            continue
+        EASY, BAND, ZERO = 1.0e-4 / t_band, 1.0, 8.0 / t_band
+        ck.extra.setdefault("regime_batches", {})[f"{shape}/n={n}/{model}/K={K}/{'tip-states' if tipst else 'tip-partials'}"] = {
+            "band_branch_length": t_band, "band_min_site_log": got, "rows": "EASY t=1e-4, BAND tuned, ZERO t=8"}
+        orders = [[EASY, BAND], [BAND, EASY], [EASY, 1.003 * BAND, 0.99 * BAND], [BAND, ZERO, EASY]]
+        if ck.thorough():
+            orders += [[EASY, ZERO, BAND], [ZERO, EASY, BAND], [BAND, EASY, ZERO], [EASY, EASY * 2, BAND, EASY * 3], [BAND, BAND * 1.02]]
+        for oi, factors in enumerate(orders):
+            if time.time() - t_start > budget_s:
+                ck.notes.append(f"regime batches: budget reached in configuration {ci}")
+                break
+            hb = Hist(dict(base, t=t_band, batch=factors))
+            eval_and_check(ck, drv, hb, f"regime-batch-{oi}-fresh", refs, fails, group="regime")
+            eval_and_check(ck, drv, hb, f"regime-batch-{oi}-repeat", refs, fails, group="regime")
+    return fails
+
+
+# ----------------------------------------------------------------------------------------------
 
 
 def zone_of(f):
@@ -1570,6 +1690,10 @@ def sig_of(f):
     if f["kind"] == "direct-disagree":
         return "calculate_treelikelihood:" + f["variant"] + ":disagrees-with-unrescaled"
     br = branch_name(f["calls"], False)
+    if f["cfg"].get("clade") and f["kind"] in ("inaccurate", "not-finite"):
+        return f"TreeLikelihoodModel:{br}:{f['kind']}:clade-heterogeneous-columns"
+    if f["cfg"].get("regime_batch") and f["kind"] in ("inaccurate", "not-finite"):
+        return f"TreeLikelihoodModel:{br}:{f['kind']}:batch-rows-in-different-regimes"
     if f["kind"] == "inaccurate" and f["cfg"].get("mixed"):
         return f"TreeLikelihoodModel:{br}:finite-but-inaccurate:{zone_of(f)}:mixed-alignment"
     if f["kind"] == "inaccurate":
@@ -1639,6 +1763,8 @@ def run(ck: Check):
         fails = direct_fails + timed("sweep", sweep, ck, drv, 600.0 if ck.thorough() else 44.0)
         fails += timed("mixed", mixed_sweep, ck, drv, 240.0 if ck.thorough() else 20.0)
         fails += timed("batch", batch_histories, ck, drv, 120.0 if ck.thorough() else 12.0)
+        fails += timed("clade", clade_sweep, ck, drv, 150.0 if ck.thorough() else 10.0)
+        fails += timed("regime", regime_batches, ck, drv, 150.0 if ck.thorough() else 12.0)
         fails += timed("routes", routes_check, ck, drv, 90.0 if ck.thorough() else 10.0)
         fails += timed("float32", float32_sweep, ck, drv, 120.0 if ck.thorough() else 10.0)
         fails += timed("invariants", invariants_check, ck, drv, 90.0 if ck.thorough() else 12.0)
